@@ -23,7 +23,7 @@ RULE = ("Sequences of public calls on one document with a default namespace, two
         "representation, a re-add, set_time, add_asserted_type or a native-typed Literal; distinct by SHA-1.")
 ASSUMPTIONS = [
     "the model is the intents (URI / instant+offset / python value), independent of entry path",
-    "set_time: asserted to leave a single datetime that equals the new value (the method is documented as a setter)",
+    "set_time with a different time: either the new value replaces the old one (current behaviour) or the call is refused with ProvException and nothing changes - both are consistent with the statement",
     "not claimed (as the statement says): one membership call with several prov:entity values",
 ]
 REQUIRED_CLASSES = {"all": ["via:convenience", "via:alias", "via:new_record", "via:factory", "op:readd_same", "op:readd_diff_refused",
@@ -244,16 +244,31 @@ def _c05_op(b, op, items, ctx):
             return
         si, rec, m = acts[op[1] % len(acts)]
         kw = {}
+        new_attrs = list(m["attrs"])
+        differs = False
         for key, iso, form in (("startTime", op[2], op[4]), ("endTime", op[3], op[5])):
             if iso is None:
                 continue
             t = {"t": iso, "as": form}
             kw[key] = _time_py(t)
-            m["attrs"] = [(a, v) for a, v in m["attrs"] if a != spec.PROV_NS + key]
-            m["attrs"].append((spec.PROV_NS + key, _time_model(t)))
+            old = [v for a, v in new_attrs if a == spec.PROV_NS + key]
+            if old and old[0] != _time_model(t):
+                differs = True
+            new_attrs = [(a, v) for a, v in new_attrs if a != spec.PROV_NS + key]
+            new_attrs.append((spec.PROV_NS + key, _time_model(t)))
             if form == "str":
                 ctx.count("time:str")
-        rec.set_time(**kw)
+        before = crecord(rec)
+        try:
+            rec.set_time(**kw)
+            m["attrs"] = new_attrs          # a setter: the record now holds the new time(s)
+        except ProvException:
+            # refusing a DIFFERENT second value is the other behaviour the statement allows; nothing may have changed
+            if not differs:
+                items.append(_it("set_time_refused_without_conflict"))
+            elif crecord(rec) != before:
+                items.append(_it("refusal_changed_record"))
+            ctx.count("op:set_time_refused")
         ctx.count("op:set_time")
     elif code == "asserted_type":
         si, rec, m = b.records[op[1] % len(b.records)]
